@@ -498,8 +498,44 @@ fn references(ctx: &Ctx) {
     ctx.extra("references_made", json!(n));
 }
 
+struct Idle;
+impl edp_node::Process for Idle {
+    async fn handle_message(&mut self, _msg: edp_node::Message) -> edp_node::Result<()> {
+        Ok(())
+    }
+}
+
+/// A started node: EPMD assigns the creation at registration; every identifier made afterwards - pids of spawned
+/// processes, references, the node's own report - carries exactly that value.
+fn started_nodes(ctx: &Ctx) {
+    let rt = tokio::runtime::Builder::new_current_thread().enable_all().build().expect("runtime");
+    rt.block_on(async {
+        let epmd = crate::mon::net::start_epmd().await;
+        for (k, assigned) in [1u32, 2, 3, 0x5EED_0016, 0x7fff_ffff, u32::MAX, 0].into_iter().enumerate() {
+            *epmd.creation.lock().unwrap() = assigned;
+            let mut node = edp_node::Node::new(format!("started{}@127.0.0.1", k), "cookie");
+            if let Err(e) = node.start(0).await {
+                ctx.inconclusive(&format!("Node::start against the fake EPMD failed: {}", e));
+                continue;
+            }
+            ctx.eval(1);
+            ctx.class(&format!("started-node/creation-{}", if assigned == 1 { "1" } else if assigned == 0 { "0" } else { "other" }));
+            let reported = node.creation();
+            let r1 = node.make_reference();
+            let pid = node.spawn(Idle).await.ok();
+            let r2 = node.make_reference();
+            let seen = json!({"epmd_assigned": assigned, "node_reports": reported, "reference_before_spawn": r1.creation, "pid": pid.as_ref().map(|p| p.creation), "reference_after_spawn": r2.creation});
+            let all_match = reported == assigned && r1.creation == assigned && r2.creation == assigned && pid.as_ref().map(|p| p.creation == assigned).unwrap_or(true);
+            if !all_match {
+                let which = if r1.creation != assigned || r2.creation != assigned { "reference" } else if reported != assigned { "node" } else { "pid" };
+                ctx.viol(&format!("C16:creation-mismatch:started-node:{}", which), "an identifier made by a started node does not carry the creation EPMD assigned", seen);
+            }
+        }
+    });
+}
+
 pub fn run(ctx: &Ctx) {
-    ctx.rule("(a) sequential allocations across 2..5 wraps and from counters preset just before the id wrap and the serial's 32-bit wrap; (a') histories of allocations interleaved with set_creation to new, the same and earlier values; (b) turn-based scheduler over the pid_alloc sync points + lock probe: interleavings of 2x1, 2x2, 3x1 (and 3x2, 4x1 thorough) allocations enumerated depth-first (exhaustive where marked), random schedules for 2..4 threads; (c) free-running stress 2..16 threads with seeded spin/yield/sleep at the hook points; (d) 16 threads x make_reference; evaluations = schedules/rounds/allocations judged by the uniqueness oracle; distinct = distinct step orders actually realised (trace hashes) + configuration classes");
+    ctx.rule("(a) sequential allocations across 2..5 wraps and from counters preset just before the id wrap and the serial's 32-bit wrap; (a') histories of allocations interleaved with set_creation to new, the same and earlier values; (b) turn-based scheduler over the pid_alloc sync points + lock probe: interleavings of 2x1, 2x2, 3x1 (and 3x2, 4x1 thorough) allocations enumerated depth-first (exhaustive where marked), random schedules for 2..4 threads; (c) free-running stress 2..16 threads with seeded spin/yield/sleep at the hook points; (d) 16 threads x make_reference; (e) nodes started against a fake EPMD assigning creations 0, 1, 2, ..., 2^32-1: pids, references and the node's report must carry it; evaluations = schedules/rounds/allocations judged by the uniqueness oracle; distinct = distinct step orders actually realised (trace hashes) + configuration classes");
     ctx.assume("uniqueness is only claimed within 2^32 serial increments (a serial that wraps after 2^52 allocations re-issues pairs by construction)");
     let mut rng = Rng::derive(ctx.seed, 16, 1);
     sequential(ctx);
@@ -507,4 +543,5 @@ pub fn run(ctx: &Ctx) {
     enumerated(ctx, &mut rng);
     stress(ctx, &mut rng);
     references(ctx);
+    started_nodes(ctx);
 }
